@@ -352,11 +352,11 @@ META = {
         "design_ref": "DESIGN.md §7 C14", "note": _TRUST + " The race detector and real goroutine schedules are outside this technique.",
     },
     "C02": {
-        "text": "Bounded symbolic model checking of the real parser on every generated subset program within the node budget: the program is unparsed to a token script in which operator identities (per precedence class), all permitted line breaks and all positions are solver variables, parsed by the real parser, and the resulting tree must equal the generated tree (ECMAScript precedence, associativity, ASI boundaries, restricted productions) on every feasible path.",
+        "text": "Bounded symbolic model checking of the real parser on every generated subset program within the node budget: the program is unparsed to a token script in which operator identities (per precedence class), all permitted line breaks and all positions are solver variables, parsed by the real parser, and the resulting tree must equal the generated tree (ECMAScript precedence, associativity, ASI boundaries, restricted productions) on every feasible path; one run repeats this after an earlier plugin-configured parser (postfix operator on a built-in operator token) was built and used in the same process.",
         "design_ref": "DESIGN.md §7 C02", "note": _TRUST,
     },
     "C03": {
-        "text": "Bounded symbolic model checking of the printers against the real lexer and parser: every tree over the core nodes within the node budget (every parent/child kind and operator pair on every side) is printed compact or pretty (flags solver-quantified), the text is parsed back in the same path and must give the same shape, and compiling the re-parsed tree must reproduce the text byte for byte; the printer/parser precedence tables are compared for all 2^64 token types in one query.",
+        "text": "Bounded symbolic model checking of the printers against the real lexer and parser: every tree over the core nodes within the node budget (every parent/child kind and operator pair on every side) is printed compact or pretty (flags solver-quantified), the text is parsed back in the same path and must give the same shape, and compiling the re-parsed tree must reproduce the text byte for byte; the printer/parser precedence tables are compared for all 2^64 token types in one query. Statement trees assembled directly from the constructors (every nesting of if / if-else / while / for / block / function declaration within the budget, e.g. an else-less if as then-branch of an if-else) are printed and parsed back the same way; one run repeats the round trip after an earlier plugin-configured parser in the same process.",
         "design_ref": "DESIGN.md §7 C03", "note": _TRUST + " Outside: trees above the node budget, custom plugin nodes, randomly generated deeper trees.",
     },
     "C06": {
@@ -364,7 +364,7 @@ META = {
         "design_ref": "DESIGN.md §7 C06", "note": _TRUST,
     },
     "C07": {
-        "text": "Bounded symbolic model checking of literal handling from text to text: for every string literal (both quote styles, any escape) and backtick string of <= K content bytes and every numeric literal of <= K characters that the reference scanner accepts, the real lexer, parser and printer (compact and pretty) are executed on the symbolic bytes and the emitted text must be exactly one literal whose value - computed by an independent implementation of the ECMAScript string value and template cooking rules - equals the source value (numbers: emitted verbatim).",
+        "text": "Bounded symbolic model checking of literal handling from text to text: for every string literal (both quote styles, any escape) and backtick string of <= K content bytes and every numeric literal of <= K characters that the reference scanner accepts, the real lexer, parser and printer (compact and pretty) are executed on the symbolic bytes and the emitted text must be exactly one literal whose value - computed by an independent implementation of the ECMAScript string value and template cooking rules - equals the source value (numbers: emitted verbatim). Pairs of a quoted and a backtick literal in one program (either order) are checked the same way, so that the content of one literal cannot change how the output passes treat the other.",
         "design_ref": "DESIGN.md §7 C07", "note": _TRUST + " The value comparison is syntactic (R4); no JavaScript engine is run.",
     },
     "C08": {
@@ -392,11 +392,11 @@ META = {
         "design_ref": "DESIGN.md §7 C12", "note": _TRUST + " Invalidity of the corrupted text is by construction (unbalanced delimiters, adjacent operands), not by a reference parser; general single-token deletions and unterminated literals are outside this check.",
     },
     "C13": {
-        "text": "Bounded symbolic model checking of the parser modes: on arbitrary token buffers strict-accepted implies tolerant returns the identical tree with no errors, and smart mode equals default mode (tree and errors) when no line-initial ( or [ occurs; on generated programs tolerant mode accepts fused statements and open blocks keeping every statement, and smart mode treats a line-initial ( or [ as a statement start. The mode flags are copied at Build time: a parser keeps the modes it was built with when the shared builder is reconfigured before the parser is used.",
+        "text": "Bounded symbolic model checking of the parser modes: on arbitrary token buffers strict-accepted implies tolerant returns the identical tree with no errors, and smart mode equals default mode (tree and errors) when no line-initial ( or [ occurs; on generated programs tolerant mode accepts fused statements and open blocks keeping every statement, and smart mode treats a line-initial ( or [ as a statement start. The mode flags are copied at Build time: a parser keeps the modes it was built with when the shared builder is reconfigured before the parser is used. The after-newline flag the smart-semicolon rule reads is the lexer's: the inductive step lemma of C10 (LF, CR LF, line breaks after a trailing comment) is part of this check.",
         "design_ref": "DESIGN.md §7 C13", "note": _TRUST,
     },
     "C16": {
-        "text": "Bounded symbolic model checking of the parsing-context stack: on every generated program (nested blocks, function declarations and expressions) every statement/expression interceptor invocation sees IsInFunction/CurrentContext equal to the generator's nesting oracle for the current token; on arbitrary token buffers in every mode the context is back at top level with a balanced stack after parsing. The nesting clauses are also decided under plugin behaviour: an interceptor that pushes a context type of its own around block statements and one that strips parsed statements by returning nil.",
+        "text": "Bounded symbolic model checking of the parsing-context stack: on every generated program (nested blocks, function declarations and expressions) every statement/expression interceptor invocation sees IsInFunction/CurrentContext equal to the generator's nesting oracle for the current token; on arbitrary token buffers in every mode the context is back at top level with a balanced stack after parsing. The nesting clauses are also decided under plugin behaviour: an interceptor that pushes a context type of its own around block statements and one that strips parsed statements by returning nil, interceptors that call the exported parse functions of a construct directly (ParseFunctionStatement, ParseBlockStatement, ParseFunctionExpression + ParseRemainingExpression) instead of next(), and a parser driven statement by statement through ParseStatement without ParseProgram.",
         "design_ref": "DESIGN.md §7 C16", "note": _TRUST,
     },
     "C10": {
@@ -405,7 +405,7 @@ META = {
         "note": "Trusted: xsym's SSA translation (witness paths replayed natively each run), z3, the reference trivia scanner R7 and position function R6. Outside the claim: a single lexeme together with its leading trivia longer than K bytes (counted as cut paths); the property's fuzzing clause is another technique.",
     },
     "C09": {
-        "text": "Bounded symbolic model checking of the real sourcemap package: encodeVLQ is decided for every integer |n| <= 2^31 (7 paths x sign, solver-quantified over n); encodeMappings for every list of <= 3 (quick) / 4 (thorough) segments with arbitrary fields; every operation history of length <= 3 / 4 over the five builder operations with symbolic positions, advances, string bytes and names. The emitted mappings are decoded by an independent v3 decoder inside the same path and compared with the recorded absolute mappings.",
+        "text": "Bounded symbolic model checking of the real sourcemap package: encodeVLQ is decided for every integer |n| <= 2^31 (7 paths x sign, solver-quantified over n); encodeMappings for every list of <= 3 (quick) / 4 (thorough) segments with arbitrary fields; every operation history of length <= 3 / 4 over the five builder operations and the request of the map itself (at any point, repeatedly) with symbolic positions, advances, string bytes and names. The emitted mappings are decoded by an independent v3 decoder inside the same path and compared with the recorded absolute mappings.",
         "design_ref": "DESIGN.md §7 C09",
         "note": "Trusted: the go/ssa translation in xsym (validated on every run by replaying witness paths natively), z3 (cross-checked by z3 5.1 and cvc5 in the thorough tier), the reference decoder R1. Modular step: encodeVLQ replaced by its contract when checking encodeMappings, with the contract range asserted at every call. Outside the claim: more segments/operations than the bound, |n| > 2^31, File/Sources fields.",
     },
